@@ -152,7 +152,7 @@ func TestC07WindowEnumerated(t *testing.T) {
 
 func TestC07WindowRandom(t *testing.T) {
 	rec := evid.New(t, "C07", "rapid histories (<=40 frames) mixing boundary values, random 48-bit timestamps and newest+-delta around 1,000,000; model comparison at every step; non-trivial = some frame older than newest but inside the window, on the boundary, or newest < 1,000,000; distinct by hash of the history")
-	rec.Require("inside-window", "on-boundary", "just-outside", "newest-below-window")
+	rec.Require("inside-window", "on-boundary", "just-outside", "newest-below-window", "forged-interleaved")
 	evid.Check(t, rec, evid.N(40000, 200000), func(t *rapid.T) {
 		n := rapid.IntRange(1, 40).Draw(t, "n")
 		var hist []uint64
@@ -177,6 +177,23 @@ func TestC07WindowRandom(t *testing.T) {
 			}
 			hist = append(hist, ts)
 			m.step(ts)
+		}
+		// forged frames (wrong signature, arbitrary timestamps incl. far-future ones) interleaved at generated
+		// positions: each must be refused and must leave the window untouched
+		forged := map[int]uint64{}
+		if rapid.Bool().Draw(t, "with_forged") {
+			nf := rapid.IntRange(1, 4).Draw(t, "nforged")
+			for k := 0; k < nf; k++ {
+				pos := rapid.IntRange(0, len(hist)).Draw(t, "forged_pos")
+				forged[pos] = rapid.OneOf(rapid.SampledFrom([]uint64{1<<48 - 1, 1 << 47, 1 << 40}), rapid.Uint64Range(0, 1<<48-1)).Draw(t, "forged_ts")
+			}
+		}
+		if len(forged) > 0 {
+			if err := runHistoryForged(hist, forged); err != nil {
+				evid.ReplayNote("C07", "TestC07WindowRandom", err.Error())
+				t.Fatalf("%v", err)
+			}
+			rec.Class("forged-interleaved", 1)
 		}
 		cls, err := runHistory(hist, nil)
 		if err != nil {
@@ -256,4 +273,55 @@ func TestC07WriterTimestamps(t *testing.T) {
 			rec.Sample("writer-sequence", map[string]interface{}{"streamwriter": useStream, "writes": n, "first_ts": first, "last_ts": prev})
 		}
 	})
+}
+
+
+// runHistoryForged is runHistory with unauthenticated frames inserted: forged[pos] is the timestamp of a
+// frame with a wrong signature placed before history element pos.
+func runHistoryForged(hist []uint64, forged map[int]uint64) error {
+	var stream []byte
+	type item struct {
+		ts     uint64
+		forged bool
+		n      int
+	}
+	var items []item
+	add := func(ts uint64, isForged bool, seq byte) {
+		b := signedAt(ts, seq)
+		if isForged {
+			b[len(b)-1] ^= 0x5A
+		}
+		stream = append(stream, b...)
+		items = append(items, item{ts, isForged, len(b)})
+	}
+	for i := 0; i <= len(hist); i++ {
+		if ts, ok := forged[i]; ok {
+			add(ts, true, byte(100+i))
+		}
+		if i < len(hist) {
+			add(hist[i], false, byte(i))
+		}
+	}
+	res, terr, herr := readAll(&chunkReader{data: stream, failAt: -1}, nil, keyOf(&c07Key), len(stream)+2)
+	if herr != nil {
+		return herr
+	}
+	if terr != io.EOF || len(res) != len(items) {
+		return fmt.Errorf("%d results for %d frames (end %v)", len(res), len(items), terr)
+	}
+	var m windowModel
+	for i, it := range items {
+		got := res[i].err == nil
+		if it.forged {
+			if got {
+				return fmt.Errorf("history %v with forged frames %v: a frame with a wrong signature (ts %d) was accepted", hist, forged, it.ts)
+			}
+			continue
+		}
+		want := m.step(it.ts)
+		if got != want {
+			return fmt.Errorf("history %v with forged (unauthenticated) frames at %v: authentic frame with timestamp %d accepted=%v, must be accepted=%v (newest authentic so far %d): a frame that failed authentication influenced the window (err=%v)", hist, forged, it.ts, got, want, m.newest, res[i].err)
+		}
+	}
+	return nil
 }
